@@ -95,6 +95,12 @@ def run(ctx):
             import c13
             common.borrow_rules(rep, lambda: (c13.alpha(cfg, crate, rep), c13.sink(cfg, crate, rep)), "C13.", "C04.strings")
         offered_params(cfg, crate, rep)
+        # "DEFAULT values omitted": the only DEFAULT-valued field rcgen could ever encode is the certificate version (v1);
+        # it is written as the constant v3 on every path (a v1 certificate would have to omit the field altogether)
+        import c05
+        arts5 = [common.artefact(crate, f) for f in (CERT_FN, CSR_FN, CRL_FN)]
+        if all(a.tbs is not None for a in arts5):
+            common.borrow_rules(rep, lambda: c05.check_versions(cfg, arts5, rep), "C05.", "C04.default")
         arts = [common.artefact(crate, f) for f in (CERT_FN, CSR_FN, CRL_FN)]
         rep.fn(CERT_FN, CSR_FN, CRL_FN, SIGN_DER, "key_pair::serialize_public_key_der")
         nb = nbits = nset = nint = nraw = 0
